@@ -276,6 +276,44 @@ func c11(c *Ctx) {
 					}
 				}
 				dest := valueName(a[0])
+				if tp, isPhi := a[0].(*ssa.Phi); isPhi && !known {
+					// target map and key chosen first, one merge call afterwards: two phis of one block, paired edge by edge
+					kp, isKP := a[2].(*ssa.Phi)
+					okPairs := isKP && kp.Block() == tp.Block()
+					nHit, nMiss := 0, 0
+					for i := range tp.Edges {
+						if !okPairs {
+							break
+						}
+						pred := tp.Block().Preds[i]
+						facts := factsAt(pred)
+						if ifi, isIf := pred.Instrs[len(pred.Instrs)-1].(*ssa.If); isIf && len(pred.Succs) == 2 && pred.Succs[0] != pred.Succs[1] {
+							facts = append(facts, canonOf(Cond{ifi.Cond, pred.Succs[0] == tp.Block(), ifi}))
+						}
+						isUpd := func(c2 *ssa.Call) bool {
+							return staticCallee(c2) != nil && staticCallee(c2).Name() == "updateTagsAndHostname"
+						}
+						switch {
+						case callKnown(facts, isUpd, true):
+							nHit++
+							kc, isC := kp.Edges[i].(*ssa.Call)
+							if !(is(tp.Edges[i], fwdMap) && isC && isCall(kc, "gostatsd.FormatTagsKey")) {
+								okPairs = false
+							}
+						case callKnown(facts, isUpd, false):
+							nMiss++
+							if !(is(tp.Edges[i], parkMap) && paramIndex(cl, kp.Edges[i]) == 1) {
+								okPairs = false
+							}
+						default:
+							okPairs = false
+						}
+					}
+					r.Check("route:"+F+":hit", okPairs && nHit >= 1, cc.Pos(), "cache hit: into the forwarded map under the re-formatted key (target and key selected together)")
+					r.Check("route:"+F+":miss", okPairs && nMiss >= 1, cc.Pos(), "cache miss: into the parked map under the unchanged key (target and key selected together)")
+					r.Check("route:"+F+":name", paramIndex(cl, a[1]) == 0, cc.Pos(), "metric name unchanged")
+					continue
+				}
 				if !known {
 					r.Fail("route:"+F+":controlled-by-cache", cc.Pos(), "merge is not controlled by the cache lookup result")
 					continue
